@@ -41,6 +41,16 @@ def _call(name, basis, G0, mk):
     if name == "dipole":
         from gbasis.integrals.moment import moment_integral
         return moment_integral(basis, mk.array(G0["C"]), np.array(VEC, dtype=int))
+    if name == "quadrupole":
+        from gbasis.integrals.moment import moment_integral
+        six = [[2, 0, 0], [1, 1, 0], [1, 0, 1], [0, 2, 0], [0, 1, 1], [0, 0, 2]]
+        M = np.asarray(moment_integral(basis, mk.array(G0["C"]), np.array(six, dtype=int))).view(np.ndarray)
+        idx = {(0, 0): 0, (0, 1): 1, (0, 2): 2, (1, 1): 3, (1, 2): 4, (2, 2): 5}
+        out = np.empty(M.shape[:2] + (3, 3), dtype=object)
+        for i in range(3):
+            for j in range(3):
+                out[:, :, i, j] = M[:, :, idx[(min(i, j), max(i, j))]]
+        return out
     if name == "momentum":
         from gbasis.integrals.momentum import momentum_integral
         return momentum_integral(basis)
@@ -63,9 +73,9 @@ def _call(name, basis, G0, mk):
     raise KeyError(name)
 
 
-KIND = {"overlap": "scalar", "kinetic": "scalar", "dipole": "vector", "momentum": "vector", "angmom": "pseudo",
+KIND = {"quadrupole": "tensor2", "overlap": "scalar", "kinetic": "scalar", "dipole": "vector", "momentum": "vector", "angmom": "pseudo",
         "point_charge": "scalar", "eri": "scalar", "eval": "scalar", "grad": "vector"}
-NIX = {"overlap": 2, "kinetic": 2, "dipole": 2, "momentum": 2, "angmom": 2, "point_charge": 2, "eri": 4, "eval": 1, "grad": 1}
+NIX = {"quadrupole": 2, "overlap": 2, "kinetic": 2, "dipole": 2, "momentum": 2, "angmom": 2, "point_charge": 2, "eri": 4, "eval": 1, "grad": 1}
 
 
 def rep_matrix(ops, l, R):
@@ -204,6 +214,10 @@ class Motion(Case):
         for ax in range(NIX[mod]):
             A = np.moveaxis(np.tensordot(D, A, (1, ax)), 0, ax)
         kind = KIND[mod]
+        if kind == "tensor2":
+            Rm = np.array(I["R"], dtype=object)
+            A = np.tensordot(A, Rm, (A.ndim - 2, 1))   # (..., j, i')
+            A = np.tensordot(A, Rm, (A.ndim - 2, 1))   # (..., i', j')
         if kind in ("vector", "pseudo"):
             Rm = np.array(I["R"], dtype=object)
             A = np.tensordot(A, Rm, (A.ndim - 1, 1))
@@ -269,6 +283,14 @@ def cases(tier, seed=0):
     for mod in mods:
         out.append(Motion(module=mod, motion=["trans"], **two))
     out.append(Motion(module="eri", motion=["trans"], ls=[1, 0], types="cc", Ks=[1, 1], Ms=[1, 1]))
+    sp = dict(ls=[0, 1], types="cc", Ks=[1, 1], Ms=[1, 2])
+    out.append(Motion(module="quadrupole", motion=["trans"], **sp))
+    for axis in range(3):
+        out.append(Motion(module="quadrupole", motion=["rot", axis], **sp))
+        out.append(Motion(module="quadrupole", motion=["rotq", axis, 1, 2], ls=[1, 2], types="cc", Ks=[1, 1], Ms=[1, 1]))
+    for idx in (1, 10, 21, 30, 47):
+        perm, signs = SIGNED_PERMS[idx]
+        out.append(Motion(module="quadrupole", motion=["perm", list(perm), list(signs)], **sp))
     out.append(Motion(module="overlap", motion=["trans"], **mix))
     # all 48 signed axis permutations
     for idx, (perm, signs) in enumerate(SIGNED_PERMS):
@@ -291,7 +313,10 @@ def cases(tier, seed=0):
             if mod == "point_charge":
                 # symbolic angle only for (p, s); for d shells a fixed Pythagorean rotation (cos, sin) = (3/5, 4/5) or (5/13, 12/13)
                 out.append(Motion(module=mod, motion=["rot", axis], ls=[1, 0], types="cc", Ks=[1, 1], Ms=[1, 1]))
-                out.append(Motion(module=mod, motion=["rotq", axis, 1 + axis % 2, 2 + axis % 2], **two))
+                out.append(Motion(module=mod, motion=["rotq", axis, 1 + axis % 2, 2 + axis % 2], ls=[1, 1], types="cc", Ks=[1, 1], Ms=[1, 1]))
+                if tier == "thorough":
+                    # d shells: the same-centre (d|d) block is at the edge of what the solver finishes in 60 s
+                    out.append(Motion(module=mod, motion=["rotq", axis, 1 + axis % 2, 2 + axis % 2], **two))
                 continue
             out.append(Motion(module=mod, motion=["rot", axis], **two))
         if tier == "thorough":
@@ -322,7 +347,7 @@ def main(tier="quick", seed=0, only=None):
         "motions": "all translations (symbolic vector); all 48 signed axis permutations (enumerated; quick: 2 of 8 modules each, thorough: all); "
                    "rotations about each coordinate axis with symbolic angle (rational parametrisation, every angle except pi); thorough: general "
                    "rotation from a symbolic quaternion for l <= 1",
-        "modules": "overlap, kinetic, dipole moments about a co-moving origin, momentum, angular momentum (incl. the d x p shift law), "
+        "modules": "overlap, kinetic, dipole and second (rank-2 tensor) moments about a co-moving origin, momentum, angular momentum (incl. the d x p shift law), "
                    "point charge, ERI (l <= 1), function values and gradients; Cartesian and mixed Cartesian/spherical 2-shell bases, l <= 2 (3 thorough)",
         "outside": "general 3-parameter rotations for l >= 2; density / stress-tensor level invariants (follow from these by linear algebra, not checked here)",
     }
